@@ -196,7 +196,11 @@ pub fn prefill_rows(t: &TableSpec) -> Vec<Row> {
     if t.prefill == 0 || t.cols.iter().any(|c| c.check.is_some() || c.fk.is_some() || c.auto_inc || ((c.pk || c.unique) && matches!(c.ty, Ty::Bool | Ty::Double))) {
         return vec![];
     }
-    (0..t.prefill as i64)
+    // scrambled order (37 is coprime to both sizes): keys arrive non-monotonically, so index and table leaves
+    // split in the middle and a multi-row statement keeps inserting on both sides of a fresh split
+    let n = t.prefill as i64;
+    (0..n)
+        .map(|j| (j * 37 + 11) % n)
         .map(|i| {
             t.cols
                 .iter()
@@ -348,6 +352,19 @@ pub fn pool(ty: Ty, sel: u8, big: bool) -> Val {
     }
 }
 
+/// the pre-load as statements: (multi-row INSERT, the rows it inserts)
+pub fn prefill_statements(t: &TableSpec, chunk: usize) -> Vec<(String, Vec<Row>)> {
+    prefill_rows(t)
+        .chunks(chunk)
+        .map(|c| {
+            (
+                format!("INSERT INTO {} VALUES {}", t.name, c.iter().map(|r| format!("({})", r.iter().map(|v| v.sql()).collect::<Vec<_>>().join(", "))).collect::<Vec<_>>().join(", ")),
+                c.to_vec(),
+            )
+        })
+        .collect()
+}
+
 // ------------------------------------------------------------------------------ strategies
 
 #[derive(Clone, Debug)]
@@ -383,6 +400,8 @@ pub struct Profile {
     pub prefill: bool,
     /// transaction blocks end in COMMIT most of the time (crash workloads: committed work must survive)
     pub txn_blocks_commit: bool,
+    /// weight of values above the TOAST threshold among generated values (default 1 of ~27)
+    pub long_weight: u32,
 }
 
 impl Default for Profile {
@@ -415,6 +434,7 @@ impl Default for Profile {
             txn_blocks: false,
             prefill: false,
             txn_blocks_commit: false,
+            long_weight: 1,
         }
     }
 }
@@ -501,7 +521,7 @@ pub fn where_strategy(p: &Profile) -> BoxedStrategy<Where> {
 
 fn valsel(p: &Profile) -> BoxedStrategy<u8> {
     let null_w = if p.allow_null_lit { 2 } else { 0 };
-    let long_w = if p.allow_long { 1 } else { 0 };
+    let long_w = if p.allow_long { p.long_weight } else { 0 };
     let big_w = if p.big_keys { 10 } else { 0 };
     prop_oneof![
         12 => 0u8..10,
